@@ -49,9 +49,15 @@ def _eng():
     return e
 
 
-def enable(on=True, lo=None, hi=None):
+def enable(on=True, lo=None, hi=None, tokens_only=False):
+    """tokens_only: text conversions ('%', format, str) yield tokens, but the digit-count arithmetic of the formatting
+    code (log10 / round / floor / int) gets the usual message-context placeholders: for scenarios whose subject is
+    WHICH quantity is shown, not how it is rounded (no decade forks)"""
     STATE["on"] = on
-    symx.NUMFMT_ACTIVE[0] = bool(on)
+    STATE["tokens_only"] = bool(on and tokens_only)
+    if STATE["tokens_only"]:
+        STATE["light"] = True
+    symx.NUMFMT_ACTIVE[0] = bool(on) and not tokens_only
     if lo is not None:
         STATE["lo"] = lo
     if hi is not None:
@@ -60,6 +66,10 @@ def enable(on=True, lo=None, hi=None):
 
 def active():
     return STATE["on"] and symx.cur() is not None
+
+
+def numeric():
+    return active() and not STATE.get("tokens_only")
 
 
 def pow10(k):
